@@ -169,7 +169,9 @@ func parseV(st, tok string) (*V, bool) {
 type codec interface {
 	BLength() int
 	FastWriteNocopy(buf []byte, bw thrift.NocopyWriter) int
+	FastWrite(buf []byte) int
 	FastRead(buf []byte) (int, error)
+	String() string
 }
 
 func copyMap(m map[string]string) map[string]string {
@@ -183,6 +185,10 @@ func copyMap(m map[string]string) map[string]string {
 	return r
 }
 
+// viaSetters decides (as a function of the value, so that a replay does the same) whether the struct
+// under test is built with NewBase()/NewBaseResp() + setters or as a composite literal.
+func (v *V) viaSetters() bool { return (len(v.S[0])+len(v.E))%2 == 0 }
+
 // Codec builds the real struct (a typed nil pointer for a nil receiver).
 func (v *V) Codec() codec {
 	switch v.St {
@@ -190,10 +196,25 @@ func (v *V) Codec() codec {
 		if v.Nil {
 			return (*base.Base)(nil)
 		}
+		if v.viaSetters() {
+			p := base.NewBase()
+			p.SetLogID(v.S[0])
+			p.SetCaller(v.S[1])
+			p.SetAddr(v.S[2])
+			p.SetExtra(copyMap(v.E))
+			return p
+		}
 		return &base.Base{LogID: v.S[0], Caller: v.S[1], Addr: v.S[2], Extra: copyMap(v.E)}
 	case "baseresp":
 		if v.Nil {
 			return (*base.BaseResp)(nil)
+		}
+		if v.viaSetters() {
+			p := base.NewBaseResp()
+			p.SetStatusMessage(v.S[0])
+			p.SetStatusCode(v.Code)
+			p.SetExtra(copyMap(v.E))
+			return p
 		}
 		return &base.BaseResp{StatusMessage: v.S[0], StatusCode: v.Code, Extra: copyMap(v.E)}
 	default:
@@ -403,6 +424,40 @@ func mapSizeOK(st string, b []byte) bool {
 
 // ---------------------------------------------------------------- running one op line
 
+// runAcc: build the value with New…() + setters, read it back through the getters; String() must not
+// panic on the value nor on a nil receiver (its text is not compared).
+func runAcc(v *V) string {
+	g := &V{St: v.St}
+	var isset bool
+	var direct string
+	switch v.St {
+	case "base":
+		p := base.NewBase()
+		p.SetLogID(v.S[0])
+		p.SetCaller(v.S[1])
+		p.SetAddr(v.S[2])
+		p.SetExtra(copyMap(v.E))
+		g.S = [3]string{p.GetLogID(), p.GetCaller(), p.GetAddr()}
+		g.E = p.GetExtra()
+		isset = p.IsSetExtra()
+		direct = fromCodec("base", p).Tok()
+		_ = p.String()
+		_ = (*base.Base)(nil).String()
+	default:
+		p := base.NewBaseResp()
+		p.SetStatusMessage(v.S[0])
+		p.SetStatusCode(v.Code)
+		p.SetExtra(copyMap(v.E))
+		g.S[0], g.Code = p.GetStatusMessage(), p.GetStatusCode()
+		g.E = p.GetExtra()
+		isset = p.IsSetExtra()
+		direct = fromCodec("baseresp", p).Tok()
+		_ = p.String()
+		_ = (*base.BaseResp)(nil).String()
+	}
+	return g.Tok() + " " + strconv.FormatBool(isset) + " " + direct + " str=ok"
+}
+
 func wOf(tok string, rec *recorder) (thrift.NocopyWriter, bool) {
 	switch tok {
 	case "w":
@@ -428,11 +483,12 @@ func runOp(f []string) (res string, ok bool) {
 		if !ok || err != nil || n < 0 {
 			return "", false
 		}
-		return lib.Guard(func() string {
+		r1 := lib.Guard(func() string {
 			buf := filled(n)
 			k := v.Codec().FastWriteNocopy(buf, nil)
 			return strconv.Itoa(k) + " " + lib.Hex(buf)
-		}), true
+		})
+		return r1 + fwNote(v, n, r1), true
 	case len(f) == 5 && f[0] == "fc" && f[2] == "read":
 		if _, ok := unhexS(f[3]); !ok {
 			return "", false
@@ -454,6 +510,27 @@ func runOp(f []string) (res string, ok bool) {
 				return "err " + lib.ErrStr(err) + " " + out
 			}
 			return "ok " + strconv.Itoa(n) + " " + out
+		}), true
+	case len(f) == 4 && f[0] == "fc" && f[2] == "acc" && f[1] != "appex":
+		v, ok := parseV(f[1], f[3])
+		if !ok || v.Nil {
+			return "", false
+		}
+		return lib.Guard(func() string { return runAcc(v) }), true
+	case len(f) == 4 && f[0] == "fc" && f[2] == "initdef" && f[1] != "appex":
+		v, ok := parseV(f[1], f[3])
+		if !ok || v.Nil {
+			return "", false
+		}
+		return lib.Guard(func() string {
+			c := v.Codec()
+			switch x := c.(type) {
+			case *base.Base:
+				x.InitDefault()
+			case *base.BaseResp:
+				x.InitDefault()
+			}
+			return fromCodec(f[1], c).Tok() + " " + lib.Hex(thrift.FastMarshal(c))
 		}), true
 	case len(f) == 4 && f[0] == "fc" && f[2] == "rt":
 		v, ok := parseV(f[1], f[3])
@@ -499,10 +576,14 @@ func runOp(f []string) (res string, ok bool) {
 		if !okb {
 			return "", false
 		}
-		return lib.Guard(func() string {
+		r1 := lib.Guard(func() string {
 			k := v.Codec().FastWriteNocopy(buf, w)
 			return strconv.Itoa(k) + " " + lib.Hex(buf) + rec.String() + spareNote(n, whole)
-		}), true
+		})
+		if w == nil { // the copying path proper: FastWrite(buf) must give the same bytes and length
+			return r1 + fwNote(v, n, r1), true
+		}
+		return r1, true
 	case len(f) == 2 && f[0] == "nclen":
 		s, ok := unhexS(f[1])
 		if !ok {
@@ -514,6 +595,47 @@ func runOp(f []string) (res string, ok bool) {
 		}), true
 	}
 	return "", false
+}
+
+// fwNote runs FastWrite on a fresh buffer of n bytes and compares with the result of
+// FastWriteNocopy(buf, nil) (same canonical form "<n> <hex>" or "PANIC <class>").
+func fwNote(v *V, n int, nocopy string) string {
+	r2 := lib.Guard(func() string {
+		buf := filled(n)
+		k := v.Codec().FastWrite(buf)
+		return strconv.Itoa(k) + " " + lib.Hex(buf)
+	})
+	if r2 == nocopy {
+		return " fw=same"
+	}
+	// with a map of ≥ 2 entries two writes may iterate differently: compare as multisets of entries
+	if len(v.E) >= 2 && sameUpToMapOrder(v, nocopy, r2) {
+		return " fw=same"
+	}
+	return " fw=differs"
+}
+
+// sameUpToMapOrder: both results are "<n> <hex>" with equal n and, decoded with the library's reader
+// into a zero value, the same struct (the two passes over a Go map may iterate in different orders).
+func sameUpToMapOrder(v *V, a, b string) bool {
+	fa, fb := strings.Fields(a), strings.Fields(b)
+	if len(fa) != 2 || len(fb) != 2 || fa[0] != fb[0] || len(fa[1]) != len(fb[1]) {
+		return false
+	}
+	dec := func(h string) string {
+		z := zeroCodec(v.St)
+		if _, err := z.FastRead(lib.UnHex(h)); err != nil {
+			return "err"
+		}
+		return fromCodec(v.St, z).Tok()
+	}
+	return dec(fa[1]) == dec(fb[1]) && sortedBytes(fa[1]) == sortedBytes(fb[1])
+}
+
+func sortedBytes(h string) string {
+	b := lib.UnHex(h)
+	sort.Slice(b, func(i, j int) bool { return b[i] < b[j] })
+	return string(b)
 }
 
 func firstTok(s string) string {
@@ -870,6 +992,13 @@ func genCases(o *lib.Opts) {
 			emitOp("write-exact", "fc", st, "write", tok, strconv.Itoa(bl))
 			emitOp("write-roomy", "fc", st, "write", tok, strconv.Itoa(bl+r.Pick(1, 2, 7, 100)))
 			emitOp("rt", "fc", st, "rt", tok)
+			if st != "appex" && !v.Nil {
+				emitOp("acc", "fc", st, "acc", tok)
+				emitOp("initdef", "fc", st, "initdef", tok)
+			}
+			if v.viaSetters() {
+				em.Count("value:via-setters")
+			}
 			if i%4 == 0 && bl > 0 { // too short: outside C11, model vs implementation only
 				emitOp("write-short", "fc", st, "write", tok, strconv.Itoa(r.Intn(bl)))
 				emitOp("write-short", "fc", st, "write", tok, strconv.Itoa(bl-1))
